@@ -172,6 +172,10 @@ for _a in ("Mem", "Delay"):
     fixed("F70", "C18", "dfac186", "C18.borrow|arm|" + _a, "`fn dsp(){ let t = (now, 2.0)  mem(t.0) }`: the generated program holds `state` (&mut of the state storage) while it evaluates the operand, and a tuple element is read through `self.memory`: rustc rejects the transpiled program with E0502 (findings/repro/F70_*.mmm; `mimium-cli --emit-rust` + `rustc --crate-type lib`)")
 for _p in ("C03", "C01"):
     fixed("F74", _p, "21ad381", "C03.type-substitution|arm|GetArrayElem", "`fn first(xs:[a]) -> a { xs[0.0] }  fn dsp(){ let t = first([(1.0, 2.0), (3.0, 4.0)])  t.0 * 10.0 + t.1 }`: substitute_types_in_instruction had no arm for GetArrayElem / SetArrayElem, the monomorphised copy kept the element type `a` (one word): WASM returned 0.0, the VM 12.0 (findings/repro/F74_*.mmm)")
+fixed("F75", "C03", "80dcc4b", "C03.error-drop|discard|compiler::typing::InferContext::infer_type::{closure#21}|unify_types", "`let s = (1.0, 2.0)  match s { 1 => 10.0, _ => 20.0 }`: the result of unifying the pattern's type with the scrutinee's was thrown away (`let _ = self.unify_types(..)`): accepted, VM 10.0, the WASM module does not compile (findings/repro/F75_numeric_pattern_on_tuple.mmm)")
+fixed("F75", "C03", "80dcc4b", "C03.error-drop|discard|compiler::typing::InferContext::infer_type|unify_types", "`match s { 1 => 10.0, _ => (1.0, 2.0) }`: the arms' types were unified and the result thrown away: accepted, VM 10.0, the WASM module does not compile (findings/repro/F75_match_arms_of_different_types.mmm)")
+fixed("F75", "C03", "80dcc4b", "C03.error-drop|discard|compiler::typing::InferContext::check_pattern_against_type|unify_types", "same discard for literal patterns inside tuple patterns (multi-scrutinee match)")
+fixed("F75", "C03", "80dcc4b", "C03.error-drop|discard|compiler::typing::InferContext::infer_type::{closure#14}|unify_types", "same discard for the provisional type of a recursive definition against its body (no failing input found for this site; repaired with the others)")
 fixed("F64", "C16", "cfb0ebe", "C16.invented-names|binder|record_update_temp", "`let record_update_temp = 7.0  let q = {r <- a = record_update_temp}` failed to type-check (the desugared record update binds a temporary of that name, and the type checker special-cases the name): the temporary is now called `record_update$temp`, which no program can spell (findings/repro/F64_*.mmm)")
 
 # ---- `|` after a parameter annotation (C16.annotation-ambiguity) ------------------------------------------------
